@@ -279,6 +279,55 @@ Definition tag_reading (p : tagpath) (instance_id : option Z) (use_instance_ids 
       end
   end.
 
+(* the instance id a request actually addresses by (symbol-instance addressing: enabled, known,
+   non-zero, and the tag is not program-scoped); it must then be a 32-bit number *)
+Definition instance_used (p : tagpath) (instance_id : option Z) (use_instance_ids : bool) : option Z :=
+  match tp_program p, instance_id with
+  | None, Some i => if use_instance_ids && negb (i =? 0) then Some i else None
+  | _, _ => None
+  end.
+Definition wf_instance (limit : Z) (p : tagpath) (instance_id : option Z) (use_instance_ids : bool) : bool :=
+  match instance_used p instance_id use_instance_ids with
+  | Some i => (0 <=? i) && (i <? limit)
+  | None => true
+  end.
+
+(* ================================================================ (3b) routes as segment objects *)
+(* one hop of a route as the drivers build it: PortSegment(port, link) with a port number or name
+   and a link that is a slot number (int or decimal string) or an IPv4 address string *)
+Inductive hop_link := HSlot (z : Z) | HSlotStr (ds : digits) | HAddr (o1 o2 o3 o4 : digits).
+Record hop := { hop_port : Z + text; hop_to : hop_link }.
+
+Definition addr_text (a b c d : digits) : text := a ++ [46] ++ b ++ [46] ++ c ++ [46] ++ d.
+Definition hop_seg (h : hop) : seg :=
+  Port (hop_port h)
+       (match hop_to h with
+        | HSlot z => LinkInt z
+        | HSlotStr ds => LinkStr ds
+        | HAddr a b c d => LinkStr (addr_text a b c d)
+        end).
+(* [pmax]: largest port NUMBER admitted (65535 = every CIP port number) *)
+Definition wf_hop (pmax : Z) (h : hop) : bool :=
+  (match hop_port h with
+   | inl n => (1 <=? n) && (n <=? pmax)
+   | inr name => match assoc_text name spec_port_names with Some _ => true | None => false end
+   end)
+  && (match hop_to h with
+      | HSlot z => (0 <=? z) && (z <=? 255)
+      | HSlotStr ds => digits_ok ds && (len ds <=? 4300) && (dval ds <=? 255)
+      | HAddr a b c d => spec_octet a && spec_octet b && spec_octet c && spec_octet d
+      end).
+Definition hop_reading (h : hop) : sseg :=
+  SPort (match hop_port h with
+         | inl n => n
+         | inr name => match assoc_text name spec_port_names with Some k => k | None => 0 end
+         end)
+        (match hop_to h with
+         | HSlot z => [z]
+         | HSlotStr ds => [dval ds]
+         | HAddr a b c d => addr_text a b c d          (* the address in ASCII *)
+         end).
+
 (* ================================================================ (4) connection paths *)
 Inductive port_sp := PName (n : text) | PNum (ds : digits).
 Inductive link_sp := LSlot (ds : digits) | LAddr (o1 o2 o3 o4 : digits).
